@@ -91,9 +91,9 @@ func (e C17Env) MEq(a, b fmt.Stringer) bool {
 	logCall("MEq", a, b)
 	return a.String() == b.String()
 }
-func (e *C17Env) PSub(a, b Money) Money       { logCall("PSub", a, b); return Money{a.V - b.V} }
-func (e C17Env) MOne(a Money) Money           { logCall("MOne", a); return a }       // NumIn == 2 with the receiver
-func (e C17Env) MThree(a, b, c Money) Money   { logCall("MThree", a, b, c); return a } // NumIn == 4
+func (e *C17Env) PSub(a, b Money) Money           { logCall("PSub", a, b); return Money{a.V - b.V} }
+func (e C17Env) MOne(a Money) Money               { logCall("MOne", a); return a }         // NumIn == 2 with the receiver
+func (e C17Env) MThree(a, b, c Money) Money       { logCall("MThree", a, b, c); return a } // NumIn == 4
 func (e C17Env) MTwoOut(a, b Money) (Money, bool) { logCall("MTwoOut", a, b); return a, true }
 
 func c17Install(e *C17Env) {
